@@ -191,6 +191,36 @@ def scan_case(case, ctx):
             fr2 = sut(_run_fimo, case, motifs, arg)
             got2 = _frames_to_hits(fr2, names, case)
             require(got2 == got, "fimo-thread-count-changes-result", lambda: "threads %d vs %d" % (case.get("threads", 1), case.get("threads2", 16)))
+        elif view == "revcomp" and case["input"] != "fasta" and case["rc"]:
+            # scanning the reverse complement of every sequence must give the mirror-image hit set with strands exchanged
+            rseqs = [_rc(s_) for s_ in seqs]
+            arg_r = torch.stack([torch.tensor(numpy.array([[1.0 if ch.upper() == c else 0.0 for ch in s_] for c in LET])) for s_ in rseqs])
+            fr_r = sut(_run_fimo, case, motifs, arg_r)
+            got_r = _frames_to_hits(fr_r, names, case)
+
+            def mirror(key):
+                mi, si, i, strand = key
+                return (mi, si, len(seqs[si]) - i - refs[mi].w, "-" if strand == "+" else "+")
+
+            amb_m = set(mirror(k_) for k_ in amb)
+            a_keys = set(mirror(k_) for k_ in got if k_ not in amb)
+            b_keys = set(k_ for k_ in got_r if k_ not in amb_m)
+            # windows within 1e-9 of the threshold can flip when the summation order is mirrored: drop them on both sides
+            near = set()
+            for k_ in a_keys ^ b_keys:
+                mi, si, i, strand = k_
+                x_ = _idx(rseqs[si])
+                lp_ = refs[mi].lp if strand == "+" else refs[mi].lp_rc
+                v_ = R.scan(x_, lp_)[i] if 0 <= i <= len(x_) - refs[mi].w else None
+                if v_ is not None and abs(v_ - refs[mi].t) <= 1e-9 * (1 + abs(refs[mi].t)):
+                    near.add(k_)
+            require((a_keys ^ b_keys) <= near, "fimo-reverse-complement-not-mirror-image",
+                    lambda: "%s: mirrored hits of the original %d, hits on the reverse complement %d, differing keys %s" % (
+                        desc, len(a_keys), len(b_keys), sorted(a_keys ^ b_keys)[:4]))
+            for k_ in a_keys & b_keys:
+                mi, si, i, strand = k_
+                o = (mi, si, len(seqs[si]) - i - refs[mi].w, "-" if strand == "+" else "+")
+                require(abs(got_r[k_][1] - got[o][1]) <= 1e-9 * (1 + abs(got[o][1])), "fimo-reverse-complement-score-differs", lambda: str(k_))
         elif view == "other_input" and case["input"] != "fasta" and len(set(len(s) for s in seqs)) == 1:
             with tempfile.TemporaryDirectory(prefix="c12b_") as d2:
                 path = os.path.join(d2, "y.fa")
@@ -279,7 +309,7 @@ def strategy(draw):
             "bin_size": draw(st.sampled_from([0.1, 0.1, 0.05, 0.25, 0.5, 1.0])), "eps": draw(st.sampled_from([1e-4, 1e-4, 1e-3, 1e-2])),
             "rc": draw(st.sampled_from([True, True, False])), "input": inp, "line_width": draw(st.sampled_from([60, 7, 1000])),
             "threads": draw(st.sampled_from([1, 1, 2, 4])), "threads2": draw(st.sampled_from([1, 3, 8, 16])),
-            "view": draw(st.sampled_from([None, "counts", "dim1", "threads", "other_input"]))}
+            "view": draw(st.sampled_from([None, "counts", "dim1", "threads", "other_input", "revcomp"]))}
 
 
 def _tune_into_band(cols, bin_size, eps, threshold, side):
